@@ -9,4 +9,9 @@ var Registry = map[string]func(args []string){
 	"xfer-one": XferOne,
 	"xfer-grid": XferGrid,
 	"xfer-faults": XferFaults,
+	"recv-child": RecvChild,
+	"resume-kill": ResumeKill,
+	"resume-tamper": ResumeTamper,
+	"resume-observe": ResumeObserve,
+	"resume-states": ResumeStates,
 }
